@@ -19,7 +19,7 @@ const MODS: [&str; 4] = ["A", "B", "C", "D"];
 /// two different member signatures, importers whose well-typedness depends on that signature,
 /// cycles, self-imports, imports from a module that only exists after a rename (D), local type
 /// errors, syntax errors, empty files.
-const TEXTS: [&str; 21] = [
+const TEXTS: [&str; 22] = [
   /* 0 */ "class X(val v: int) {\n  function mk(): X = X.init(1)\n  function f(): int = 1\n}\n",
   /* 1 */ "class X(val v: int) {\n  function mk(): X = X.init(1)\n  function f(): bool = true\n}\n",
   /* 2 */
@@ -58,6 +58,9 @@ const TEXTS: [&str; 21] = [
   // module has a second error of its own, the importer also imports an unrelated module
   /* 19 */ "class K {}\ninterface IB : K {}\nclass Q {\n  function f(): int = \"s\"\n}\n",
   /* 20 */ "import { IB } from B\nimport { X } from A\nclass CC : IB {\n  function g(): int = X.f()\n}\n",
+  // uses the long-named declarations of T13 that nothing else mentions: the constructor of a variant,
+  // a field read, a function call (the declaring module is not re-parsed when this text arrives)
+  /* 21 */ "import { X, VariantHolderLongName } from A\nclass U3 {\n  function mk(): VariantHolderLongName = VariantHolderLongName.VariantWithAVeryLongName(X.mk().sixteenBytesFieldName)\n  function other(): VariantHolderLongName = VariantHolderLongName.OtherVariantLongName()\n}\n",
 ];
 
 const INITS: [&[(u8, u8)]; 12] = [
